@@ -38,13 +38,14 @@ REGISTRY = dict(
     technique="TLA+ document model; TLC-enumerated layouts and mutants replayed into parser.ParseString; expected AST computed by TLC")
 
 TIERS = {
-    "quick": dict(mc_docs=3, mc_budget=1, sim=400, simdepth=400, bytepass_docs=6, mut_stride=1, scale_reps=2, gap1_docs=None),
-    "thorough": dict(mc_docs=4, mc_budget=2, sim=6000, simdepth=700, bytepass_docs=None, mut_stride=1, scale_reps=3, gap1_docs=None),
+    "quick": dict(ext_gaps=False, mc_docs=3, mc_budget=0, sim=400, simdepth=400, bytepass_docs=6, mut_stride=1, scale_reps=2, gap1_docs=None),
+    "thorough": dict(ext_gaps=True, mc_docs=4, mc_budget=2, sim=12000, simdepth=900, bytepass_docs=None, mut_stride=1, scale_reps=3, gap1_docs=None),
 }
 
 GEN_CFG = """INIT GInit
 NEXT GNext
 CONSTANTS
+  GapSet = "%s"
   Budget = 1000000
   Mutants = TRUE
   GenFamilies = {%s}
@@ -55,16 +56,18 @@ CHECK_DEADLOCK FALSE
 SIM_CFG = """INIT SInit
 NEXT SNext
 CONSTANTS
+  GapSet = "base"
   Budget = 1000000
   Mutants = FALSE
   GenFamilies = {}
   SimFamilies = {"full", "gap2"}
-INVARIANTS Emit
+INVARIANTS TypeOK DoneLegal DeviationsCounted Emit
 CHECK_DEADLOCK FALSE
 """
 MC_CFG = """INIT Init
 NEXT Next
 CONSTANTS
+  GapSet = "base"
   Budget = %d
   Mutants = TRUE
 INVARIANTS TypeOK DoneLegal DeviationsCounted LiteralsReadBack
@@ -161,6 +164,44 @@ def scaled_family(size):
     return out
 
 
+# ------------------------------------------------------------------ hand-written documents (NOT spec-derived)
+def handwritten_docs():
+    """grammatical documents with grammar elements lib/idl.py cannot render (cpp_type, trailing separators, '*' scope,
+    vertical tabs, comments inside cpp_type); each with a hand-written expectation on the projection"""
+    def typ(p, i=0):
+        return p["typedefs"][i]["type"]
+    return [
+        ("cpp_type-list", 'typedef list<i32> cpp_type "std::list" L\n',
+         lambda p: (typ(p)["cpp"], typ(p)["n"], typ(p)["v"]["n"], p["typedefs"][0]["name"]) == ("std::list", "list", "i32", "L")),
+        ("cpp_type-map", 'typedef map cpp_type "M" <string, set cpp_type \'S\' <i64>> T\n',
+         lambda p: (typ(p)["cpp"], typ(p)["v"]["cpp"], typ(p)["v"]["v"]["n"], typ(p)["k"]["n"]) == ("M", "S", "i64", "string")),
+        ("cpp_type-empty", 'typedef list<i32> cpp_type "" L (a = "b")\n',
+         lambda p: typ(p)["cpp"] == "" and p["typedefs"][0]["name"] == "L" and p["typedefs"][0]["ann"] == [{"k": "a", "v": ["b"]}]),
+        ("cpp_type-comments", 'typedef list < i32 > /*c*/ cpp_type /*c*/ "x" /*c*/ L // c\n',
+         lambda p: typ(p)["cpp"] == "x" and p["typedefs"][0]["name"] == "L"),
+        ("const-trailing-separator", 'const i32 A = 1;\nconst i32 B = 2,\nconst list<i32> C = [1,2,];\nconst map<i32,i32> Dd = {1:2;}\n',
+         lambda p: [c["name"] for c in p["consts"]] == ["A", "B", "C", "Dd"] and len(p["consts"][2]["value"]["l"]) == 2
+         and len(p["consts"][3]["value"]["m"]) == 1),
+        ("args-trailing-separator", 'service V { void f(1: i32 a, string b;) throws (X x,), }\n',
+         lambda p: [a["id"] for a in p["services"][0]["functions"][0]["args"]] == [1, 2]
+         and [a["id"] for a in p["services"][0]["functions"][0]["throws"]] == [1]),
+        ("vertical-tab-and-tabs", 'struct\tS\v{\v1:\ti32\va\v}\n',
+         lambda p: p["structs"][0]["fields"][0]["name"] == "a" and p["structs"][0]["fields"][0]["id"] == 1),
+        ("literal-with-line-break", 'const string S = "a\nb" (k = \'x\ny\')\n',
+         lambda p: p["consts"][0]["value"]["v"] == "a\nb" and p["consts"][0]["ann"] == [{"k": "k", "v": ["x\ny"]}]),
+        ("empty-annotation-lists", 'struct S { 1: i32 a () } ()\nenum E { A () } ()\n',
+         lambda p: p["structs"][0]["ann"] == [] and p["structs"][0]["fields"][0]["ann"] == [] and p["enums"][0]["values"][0]["value"] == "0"),
+        ("keywords-as-prefixes", 'struct structs { 1: i32s.x required_ , 2: lists y }\nservice voids { voidx throws_() }\n',
+         lambda p: [(f["name"], f["type"]["n"], f["req"]) for f in p["structs"][0]["fields"]] ==
+         [("required_", "i32s.x", "default"), ("y", "lists", "default")] and p["structs"][0]["name"] == "structs"
+         and (p["services"][0]["functions"][0]["ret"]["n"], p["services"][0]["functions"][0]["name"]) == ("voidx", "throws_")),
+        ("annotation-separators", 'struct S {} (a = "1" b = "2"; a = "3", )\n',
+         lambda p: p["structs"][0]["ann"] == [{"k": "a", "v": ["1", "3"]}, {"k": "b", "v": ["2"]}]),
+        ("header-after-comment-run", '#c\n//c\n/*c*/ namespace /*c*/ * /*c*/ x.y //c\ninclude "a.thrift" #c\n',
+         lambda p: p["namespaces"] == [{"lang": "*", "name": "x.y", "ann": []}] and p["includes"] == ["a.thrift"]),
+    ]
+
+
 # ------------------------------------------------------------------ the check
 def run(ctx, args):
     harness = inproc(ctx)
@@ -179,62 +220,82 @@ def run(ctx, args):
     tla_docs = [lex.tla_doc(n, f) for n, f in alldocs]
     docs_json = json.dumps(tla_docs)
 
-    # ---- 2. design level: the printer machine itself on a small universe (all layouts with <= 2 deviations)
+    # ---- 2. design level: the printer machine itself on a small universe (thorough: exhaustive with <= 2 deviations;
+    #         quick relies on the simulation run below, which checks the same invariants on random complete behaviours)
     small = [lex.tla_doc(n, f) for n, f in seeds.tiny_docs()][:T["mc_docs"]]
-    ctx.tlc("Lexical", "Lexical", "mc.cfg", files={"mc.cfg": MC_CFG % T["mc_budget"], "docs.json": json.dumps(small)},
-            timeout=2400, label="MC_Lexical[printer, <=%d deviations, %d small docs]" % (T["mc_budget"], len(small)))
+    if T["mc_budget"]:
+        ctx.tlc("Lexical", "Lexical", "mc.cfg", files={"mc.cfg": MC_CFG % T["mc_budget"], "docs.json": json.dumps(small)},
+                timeout=2400, label="MC_Lexical[printer, <=%d deviations, %d small docs]" % (T["mc_budget"], len(small)))
 
     # ---- 3. generation
     fams = '"canon", "gap1", "all", "sep", "quote", "num", "mut"'
-    r = ctx.tlc("Lexical", "LexGen", "gen.cfg", files={"gen.cfg": GEN_CFG % (fams, ""), "docs.json": docs_json},
+    r = ctx.tlc("Lexical", "LexGen", "gen.cfg", files={"gen.cfg": GEN_CFG % ("base", fams, " GenSoundSample"), "docs.json": docs_json},
                 timeout=2400, label="LexGen[bfs %d docs]" % len(tla_docs))
     gaps, drecs, cases = parse_lines(r)
     r2 = ctx.tlc("Lexical", "LexGen", "sim.cfg", files={"sim.cfg": SIM_CFG, "docs.json": docs_json},
-                 mode="simulate", simulate=max(1, T["sim"] // 4), depth=T["simdepth"], workers=4, timeout=2400,
+                 mode="simulate", simulate=max(1, T["sim"] // 8), depth=T["simdepth"], workers=8, timeout=2400,
                  label="LexGen[simulate full+gap2]")
     _, _, simcases = parse_lines(r2)
-    # the sound-generator invariant on the small universe (every emitted case is a finished printer behaviour)
-    ctx.tlc("Lexical", "LexGen", "gs.cfg",
-            files={"gs.cfg": GEN_CFG % (fams, " GenSound"), "docs.json": json.dumps(small)},
-            timeout=1200, label="LexGen[GenSound, small docs]")
-    if gaps is None or len(drecs) != len(tla_docs):
-        raise vlib.MachineryError("TLC printed %d DOC records for %d documents" % (len(drecs), len(tla_docs)))
-    tabs = {}
-    for k, td in enumerate(tla_docs):
-        rec = drecs[k + 1]
-        if rec["name"] != td["name"]:
-            raise vlib.MachineryError("document order mismatch")
-        tabs[k + 1] = lex.DocTable(gaps, rec)
-    seen = set()
-    ucases = []
-    for c in cases + simcases:
-        key = json.dumps([c["d"], c["fam"], c["i"], c["e"], c["j"], c["e2"], c["lay"], c["var"], c["m"], c["b"]])
-        if key in seen:
-            continue
-        seen.add(key)
-        ucases.append(c)
-    cases = ucases
+    if T["mc_budget"]:
+        # the sound-generator invariant on every case of the small universe (every emitted case is a finished printer behaviour)
+        ctx.tlc("Lexical", "LexGen", "gs.cfg",
+                files={"gs.cfg": GEN_CFG % ("base", fams, " GenSound"), "docs.json": json.dumps(small)},
+                timeout=1200, label="LexGen[GenSound, small docs]")
+    def tables(gaps_, drecs_):
+        if gaps_ is None or len(drecs_) != len(tla_docs):
+            raise vlib.MachineryError("TLC printed %d DOC records for %d documents" % (len(drecs_), len(tla_docs)))
+        out = {}
+        for k, td in enumerate(tla_docs):
+            rec = drecs_[k + 1]
+            if rec["name"] != td["name"]:
+                raise vlib.MachineryError("document order mismatch")
+            out[k + 1] = lex.DocTable(gaps_, rec)
+            out[k + 1].rec_lk = rec["lk"]
+            out[k + 1].rec_role = rec["role"]
+        return out
+
+    def dedup(cs):
+        seen = set()
+        out = []
+        for c in cs:
+            key = json.dumps([c["d"], c["fam"], c["i"], c["e"], c["j"], c["e2"], c["lay"], c["var"], c["m"], c["b"]])
+            if key not in seen:
+                seen.add(key)
+                out.append(c)
+        return out
+
+    tabs = tables(gaps, drecs)
+    batches = [(dedup(cases + simcases), tabs, "")]
+    if T["ext_gaps"]:
+        # the same single-gap / uniform families with the second table of layout elements
+        r3 = ctx.tlc("Lexical", "LexGen", "genx.cfg",
+                     files={"genx.cfg": GEN_CFG % ("ext", '"gap1", "all"', ""), "docs.json": docs_json},
+                     timeout=2400, label="LexGen[bfs ext layout elements]")
+        gx, dx, cx = parse_lines(r3)
+        batches.append((dedup(cx), tables(gx, dx), "x"))
 
     # ---- 4. render (lookups in TLC's tables) and cross-check against the piece lists TLC printed
     layouts = []       # (doc index, case, text)
     mutants = []
     checked_pieces = 0
-    for c in cases:
-        tab = tabs[c["d"]]
-        if c["fam"] == "mut":
-            parts = lex.mutant_pieces(tab, c)
-            text = "".join(parts)
-            mutants.append((c["d"], c, text))
-        else:
-            lay, var = lex.apply_case(tab, c)
-            parts = tab.pieces(lay, var)
-            text = "".join(parts)
-            layouts.append((c["d"], c, text))
-        if c["hp"]:
-            checked_pieces += 1
-            if parts != c["p"]:
-                raise vlib.MachineryError("renderer disagrees with Pieces() of the spec on %s: %r vs %r" % (
-                    json.dumps({k: c[k] for k in ("d", "fam", "i", "e", "m", "b")}), parts[:40], c["p"][:40]))
+    for bcases, btabs, tag in batches:
+        for c in bcases:
+            tab = btabs[c["d"]]
+            c["gapset"] = tag
+            if c["fam"] == "mut":
+                parts = lex.mutant_pieces(tab, c)
+                text = "".join(parts)
+                mutants.append((c["d"], c, text))
+            else:
+                lay, var = lex.apply_case(tab, c)
+                parts = tab.pieces(lay, var)
+                text = "".join(parts)
+                layouts.append((c["d"], c, text))
+            if c["hp"]:
+                checked_pieces += 1
+                if parts != c["p"]:
+                    raise vlib.MachineryError("renderer disagrees with Pieces() of the spec on %s: %r vs %r" % (
+                        json.dumps({k: c[k] for k in ("d", "fam", "i", "e", "m", "b")}), parts[:40], c["p"][:40]))
     # canonical rendering must be the shared renderer's text
     import idl
     for k, (n, f) in enumerate(alldocs):
@@ -293,9 +354,9 @@ def run(ctx, args):
         fam = c["fam"]
         if fam == "gap1":
             l, rr = left_right(tab, c)
-            return "layout gap1 elem=%d %s|%s" % (c["e"], l, rr)
+            return "layout gap1 elem=%s%d %s|%s" % (c["gapset"], c["e"], l, rr)
         if fam == "all":
-            return "layout all elem=%d doc=%s" % (c["e"], tab.name)
+            return "layout all elem=%s%d doc=%s" % (c["gapset"], c["e"], tab.name)
         if fam == "sep":
             kinds = sorted(set(tab.rec_lk[i] for i in range(tab.n) if tab.kind[i] == "sep" and c["var"][i] != 1))
             return "layout sep %s -> %s" % ("+".join(kinds), {2: ";", 3: "none"}[c["e"]])
@@ -309,10 +370,6 @@ def run(ctx, args):
             return "layout full doc=%s" % tab.name
         return "layout canon doc=%s" % tab.name
 
-    for t, rec in zip(tabs.values(), [drecs[k] for k in tabs]):
-        t.rec_lk = rec["lk"]
-        t.rec_role = rec["role"]
-
     def vclass(check, tab, c, where=None):
         """class record of a violating layout case: as coarse as the cause, as narrow as possible"""
         cl = {"check": check}
@@ -321,7 +378,12 @@ def run(ctx, args):
         if c["fam"] == "num":
             cl["role"] = tab.kind[c["i"] - 1] + "/" + tab.rec_role[c["i"] - 1]
             cl["style"] = style_of(tab.var[c["i"] - 1][c["e"] - 1])
-        elif c["fam"] in ("canon", "gap1", "gap2", "all", "full"):
+        elif c["fam"] == "full":
+            # a random full layout mixes every kind of choice; class by what differs, not by document
+            cl["fam"] = "full"
+            if where is not None:
+                cl["where"] = where.split(".")[-1]
+        elif c["fam"] in ("canon", "gap1", "gap2", "all"):
             cl["doc"] = tab.name            # independent of the layout family: a property of the document
         else:
             cl["doc"] = tab.name
@@ -368,6 +430,26 @@ def run(ctx, args):
         ctx.sample({"doc": tabs[mid[0]].name, "case": {k2: mid[1][k2] for k2 in ("fam", "i", "e")}, "text": mid[2][:400]})
         ctx.sample({"doc": tabs[1 + names.index("enums")].name, "expected_enums": expected[1 + names.index("enums")]["enums"][3]})
 
+    # ---- 5b. hand-written documents for grammar elements outside the shared renderer (labelled: not spec-derived)
+    hw = handwritten_docs()
+    resh, p = run_parse(ctx, harness, [{"id": n, "b64": b64(t), "proj": True, "limit_ms": TIME_LIMIT_MS} for n, t, _ in hw], "hand")
+    if resh is None:
+        raise vlib.MachineryError("harness crashed on the hand-written documents: %s" % p.stderr[-2000:])
+    for (n, t, okf), o in zip(hw, resh):
+        ctx.count(1, "handwritten " + n)
+        good = False
+        if o["ok"]:
+            try:
+                good = bool(okf(o["proj"]))
+            except (KeyError, IndexError, TypeError):
+                good = False
+        if o.get("panic") or o.get("timeout"):
+            judge_total(ctx, o, {"kind": "total", "b64": b64(t)}, "hand-written document " + n, {"check": "C03.total", "family": "handwritten"})
+        elif not good:
+            ctx.violation({"check": "C03.fidelity", "family": "handwritten", "doc": n}, {"kind": "handwritten", "doc": n, "b64": b64(t)},
+                          {"ok": o["ok"], "err": o["err"], "proj": o.get("proj")}, "the hand-written expectation in checks/c03.py handwritten_docs()",
+                          "hand-written grammatical document %s: %s" % (n, "rejected: " + o["err"].strip()[:80] if not o["ok"] else "AST differs from the expectation"))
+
     # ---- 6. totality: mutants
     reqs = [{"id": str(k), "b64": b64(t), "limit_ms": TIME_LIMIT_MS} for k, (_, _, t) in enumerate(mutants)]
     resm, p = run_parse(ctx, harness, reqs, "mutants")
@@ -396,7 +478,7 @@ def run(ctx, args):
     resb, p = run_parse(ctx, harness, reqs, "bytepass", timeout=3000)
     nbyte = 0
     if resb is None:
-        ctx.violation({"check": "C03.total", "family": "bytepass", "what": "crash"}, {"kind": "bytepass-crash"},
+        ctx.violation({"check": "C03.total", "family": "bytepass", "what": "crash"}, {"kind": "total", "b64": b64(canon[0][1]) if canon else ""},
                       {"rc": p.returncode, "stderr": p.stderr[-3000:]}, "an AST or an error",
                       "harness process died during the byte-level pass (unrecoverable crash in the parser)")
     else:
@@ -408,7 +490,7 @@ def run(ctx, args):
                               {"kind": "total", "b64": b["b64"]}, b, "an AST or an error",
                               "byte-level neighbour of %s: %s (%s at %d)" % (tabs[d].name, b["what"], b["kind"], b["off"]))
             if o["max_ns"] > TIME_LIMIT_MS * 1e6:
-                ctx.violation({"check": "C03.total", "family": "bytepass", "what": "slow"}, {"kind": "bytepass", "doc": tabs[d].name},
+                ctx.violation({"check": "C03.total", "family": "bytepass", "what": "slow"}, {"kind": "total", "doc": tabs[d].name, "b64": b64(t)},
                               {"max_ns": o["max_ns"]}, "< 20 s", "byte-level neighbour took too long")
 
     # ---- 8. totality: depth-scaled family, 3 sizes up to 64 KiB; sequential timing
@@ -446,7 +528,7 @@ def run(ctx, args):
                 growth[k] = [round(x / 1e6, 2) for x in t]
             if t[2] >= 500e6 and t[1] > 0 and t[0] > 0 and t[2] / t[1] > 3.0 and t[1] / t[0] > 3.0:
                 ctx.violation({"check": "C03.total", "family": "scaled", "what": "superlinear", "doc": k},
-                              {"kind": "scaled", "doc": k}, {"ms_at_16K_32K_64K": growth[k]},
+                              {"kind": "total", "doc": k, "b64": b64(fam[sizes[2]][k][:65536])}, {"ms_at_16K_32K_64K": growth[k]},
                               "time at most triples when the size doubles",
                               "parse time grows faster than 3x per doubling on %s: %s ms" % (k, growth[k]))
     ctx.extra_cov["scaled_family_ms_16K_32K_64K"] = growth
@@ -457,6 +539,7 @@ def run(ctx, args):
     ctx.extra_cov["mutants"] = len(mutants)
     ctx.extra_cov["documents"] = len(alldocs)
     ctx.extra_cov["pieces_crosschecked"] = checked_pieces
+    ctx.extra_cov["handwritten_documents_not_spec_derived"] = len(hw)
     ctx.exhaustive = False
     return ctx.finish(
         rule="documents = program models of lib/c03_seeds.py; per document TLC enumerates the canonical layout, every single-gap "
@@ -543,6 +626,17 @@ def replay(ctx, harness, path):
             if dd:
                 ctx.violation({"check": "C03.fidelity", "where": generalize(dd)}, case, {"proj": o["proj"], "diff": dd},
                               "the AST of the program model", "AST differs from the program model: " + dd)
+    if kind == "handwritten":
+        okf = {n: f for n, _, f in handwritten_docs()}[case["doc"]]
+        good = False
+        if o["ok"]:
+            try:
+                good = bool(okf(o["proj"]))
+            except (KeyError, IndexError, TypeError):
+                good = False
+        if not good:
+            ctx.violation({"check": "C03.fidelity", "family": "handwritten", "doc": case["doc"]}, case, {"proj": o.get("proj"), "err": o["err"]},
+                          "the hand-written expectation", "hand-written document: AST differs or rejected")
     if kind == "layout" and len(res) > 1:
         if res[0].get("h") != res[1].get("h"):
             ctx.violation({"check": "C03.layout"}, case, {"h": res[0].get("h"), "canon_h": res[1].get("h")},
